@@ -198,6 +198,14 @@ def _judge_c04(w, st, pre, post, res, val):
                 out.append(("clobber:" + op, "DestinationExistsError but the disk changed: %s" % diff[:4]))
         if op == "update_sp" and res == "KeyError" and pre != post:
             out.append(("update-overwrote:" + op, "update_statepoint(overwrite=False) raised KeyError but changed the disk"))
+    elif op in ("writefile", "docset") and res == "ok":
+        # writing into one job must not change any other job (clone / move must not share storage)
+        job = w.h.get(a[0])
+        if job is not None:
+            mine = "%s/workspace/%s/" % (os.path.basename(job.project.path), job.id)
+            other = sorted(k for k in set(pre) | set(post) if not k.startswith(mine) and pre.get(k) != post.get(k) and "/workspace/" in k)
+            if other:
+                out.append(("write-changed-another-job:" + op, "%s through a handle of %s also changed %s" % (op, job.id[:6], other[:3])))
     elif op == "move":
         x, q = a
         old = w.pre_handles.get(x)
@@ -270,6 +278,16 @@ def api_obs(signac, root, filters=None):
             sps[i] = p.open_job(id=i).statepoint()
         except Exception as e:  # noqa
             sps[i] = "!" + type(e).__name__
+    for i in ids:                      # open by abbreviated id: unique prefix -> that job, ambiguous -> LookupError
+        for L in (1, 2, 4):
+            try:
+                sps["%s~%d" % (i, L)] = signac.Project(root).open_job(id=i[:L]).id
+            except KeyError:
+                sps["%s~%d" % (i, L)] = "!KeyError"
+            except LookupError:
+                sps["%s~%d" % (i, L)] = "!LookupError"
+            except Exception as e:  # noqa
+                sps["%s~%d" % (i, L)] = "!" + type(e).__name__
     q = {}
     try:
         q = {"all": sorted(j.id for j in p.find_jobs()), "len": len(p)}
@@ -322,7 +340,12 @@ def judge_c08(w, st, pre, post, res, val):
                 os.rename(fc + ".hidden", fc)
         else:
             without = with_cache
-        truth = {"ids": dirs, "sps": {d: read_sp(root, d)[1] for d in dirs}, "q": dict({"all": dirs, "len": len(dirs)}, **fwant)}
+        tsps = {d: read_sp(root, d)[1] for d in dirs}
+        for d in dirs:
+            for L in (1, 2, 4):
+                m_ = [x for x in dirs if x.startswith(d[:L])]
+                tsps["%s~%d" % (d, L)] = d if len(m_) == 1 else "!LookupError"
+        truth = {"ids": dirs, "sps": tsps, "q": dict({"all": dirs, "len": len(dirs)}, **fwant)}
         if with_cache != truth or without != truth:
             which = "with" if with_cache != truth else "without"
             out.append(("cache-not-transparent:" + op, "API view %s the cache file differs from the workspace after %s: %s" % (which, op, str(with_cache if with_cache != truth else without)[:300])))
@@ -351,6 +374,14 @@ def judge_c09(w, st, pre, post, res, val):
     last = st["last"]
     op, a = last["op"], last["args"]
     signac = w.signac
+    if op == "readsp" and res == "ok" and "D3-leak" not in (set(st.get("tainted", ())) | w.taint):
+        job = w.h.get(a[0])
+        try:
+            spv = _handle_desc(job)["sp"] if job is not None else None
+        except Exception:  # noqa
+            spv = None
+        if job is not None and isinstance(spv, dict) and core.my_id(spv) != job.id:
+            out.append(("accepts-wrong-statepoint:same-handle", "job.statepoint() through a handle with id %s returned %r, which hashes to %s" % (job.id[:6], spv, core.my_id(spv)[:6])))
     if op == "check":
         root = w.roots[a[0]]
         cls = classify(root)
@@ -736,9 +767,18 @@ def selftest(ctx, pid):
     bad1 = replay_behaviour(uni, ("P",), [empty, s1, s2bad], None, ctx.work)
     s2bad2 = dict(s2, last=mk("init", ("h1",), "JobsCorruptedError"))
     bad2 = replay_behaviour(uni, ("P",), [empty, s1, s2bad2], None, ctx.work)
-    ok = good["mismatch"] is None and bad1["mismatch"] is not None and bad2["mismatch"] is not None
-    if not ok:
-        raise core.MachineryError("binding self-test failed: %s %s %s" % (good, bad1, bad2))
+    if good["mismatch"] is not None:
+        # the tree under test does not even follow the two-step reference behaviour: that is a verdict about the tree
+        # (reported like any other disagreement), not a failure of the machinery
+        k, bad = good["mismatch"]
+        script = [dict(op="open_sp", args=["h1", "P", dict(a)], res="ok"), dict(op="init", args=["h1"], res="ok")]
+        _report(ctx, pid, Config("selftest", ["open_sp", "init"], 0), good["mismatch"], [], script)
+        if pid in ("C02", "C03") and any(b[0] == "ws" for b in bad):
+            ctx.violation("diverges-from-model:init:reference-behaviour", "open_job(sp).init() does not leave the state point file the model requires: %s" % (str(bad)[:400]),
+                          {"config": "selftest", "spelling": "int", "projects": ["P"], "script": script, "step": k})
+        return {"untouched_behaviour_accepted": False}
+    if bad1["mismatch"] is None or bad2["mismatch"] is None:
+        raise core.MachineryError("binding self-test failed: a corrupted behaviour was accepted: %s %s" % (bad1, bad2))
     return {"untouched_behaviour_accepted": True, "corrupted_disk_state_rejected": True, "corrupted_result_rejected": True}
 
 
